@@ -226,6 +226,7 @@ type world struct {
 	dials    map[int]chan bool // pending dial of call c
 	events   chan Ev
 	lastCall int
+	done     chan struct{} // closed when the run is over
 }
 
 var errDial = errors.New("reusex: injected dial error")
@@ -239,7 +240,11 @@ func (w *world) dial(ctx context.Context) (transport.NetConn, error) {
 	w.events <- Ev{Kind: 1, C: c}
 	// The dial ends when the script says so, also after the transport cancelled its context: a real dialer
 	// can complete successfully at the very moment it is cancelled, and the transport then owns the socket.
-	ok := <-ch
+	var ok bool
+	select {
+	case ok = <-ch:
+	case <-w.done: // the script is over: no dial of this run is left hanging
+	}
 	if !ok {
 		return nil, errDial
 	}
@@ -374,7 +379,8 @@ func Run(next func(v *View) *Action) (Script, []Obs, []int) {
 	defer mu.Unlock()
 	var s Script
 	CloseHung = false
-	w := &world{gates: map[int]chan error{}, dials: map[int]chan bool{}, events: make(chan Ev, 256)}
+	w := &world{gates: map[int]chan error{}, dials: map[int]chan bool{}, events: make(chan Ev, 256), done: make(chan struct{})}
+	defer close(w.done)
 	t := transport.NewReuseConnTransport(transport.ReuseConnOpts{DialContext: w.dial})
 	calls := map[int]*call{}
 	var gmu sync.Mutex
